@@ -20,7 +20,41 @@ def type_tag(ty):
 
 
 def proj_acc(a):
-    return [{'e': U.proj_key(e.entry), 'kind': int(e.kind), 'ty': type_tag(e.type), 'ecls': type(e).__name__} for e in a]
+    return [{'e': U.proj_key(e.entry), 'kind': int(e.kind), 'ty': type_tag(e.type), 'ecls': type(e).__name__,
+             'name': e.field if isinstance(e, (optree.NamedTupleEntry, optree.StructSequenceEntry)) else ''} for e in a]
+
+
+EVAL_GLOBALS = {'KOrd': U.KOrd, 'KUnord': U.KUnord}
+
+
+def accessor_laws(accs, obj, ctx, spec):
+    """C04: composition / slicing, equality+hash across routes, codify/eval; identities are logged as model ids"""
+    out = {'split': [], 'code': [], 'eq_routes': True, 'hash_routes': True, 'path_attr': True, 'slices_typed': True}
+    routes = [optree.treespec_accessors(spec), spec.accessors()]
+    for r in routes:
+        if list(r) != list(accs):
+            out['eq_routes'] = False
+        if [hash(x) for x in r] != [hash(x) for x in accs]:
+            out['hash_routes'] = False
+    for a in accs:
+        hits = []
+        for j in range(len(a) + 1):
+            head, tail = a[:j], a[j:]
+            if type(head) is not optree.PyTreeAccessor or type(tail) is not optree.PyTreeAccessor or (head + tail) != a \
+                    or hash(head + tail) != hash(a):
+                out['slices_typed'] = False
+            try:
+                hits.append(ctx.id_of(tail(head(obj)), fresh=False))
+            except Exception:  # noqa: BLE001
+                hits.append(-99)
+        out['split'].append(hits)
+        if a.path != tuple(e.entry for e in a):
+            out['path_attr'] = False
+        try:
+            out['code'].append(ctx.id_of(eval(a.codify('t'), dict(EVAL_GLOBALS, t=obj)), fresh=False))  # noqa: S307
+        except Exception:  # noqa: BLE001
+            out['code'].append(-97)
+    return out
 
 
 def guard(fn):
@@ -30,13 +64,15 @@ def guard(fn):
         return {'err': U.exc_class(ex)}
 
 
-def flatten_family(t, cfg, ctx, obj):
-    """all eight entry points on one (tree, cfg)"""
+def flatten_family(t, cfg, ctx, obj, eps=None, laws=False):
+    """all eight entry points (or the subset `eps`) on one (tree, cfg)"""
     kw = dict(none_is_leaf=cfg['nil'], namespace=cfg['ns'])
     pred = U.make_pred(cfg, ctx)
     outs = []
 
     def ep(name, fn):
+        if eps is not None and name not in eps:
+            return None
         o = guard(fn)
         o['ep'] = name
         outs.append(o)
@@ -58,8 +94,11 @@ def flatten_family(t, cfg, ctx, obj):
                 hits.append(ctx.id_of(a(obj), fresh=False))
             except Exception as ex:  # noqa: BLE001
                 hits.append(-99)
-        return {'err': '', 'accs': [proj_acc(a) for a in accs], 'leaves': U.leaf_ids(leaves, ctx), 'spec': U.project_spec(spec),
-                'paths': [proj_path(a.path) for a in accs], 'hits': hits}
+        o = {'err': '', 'accs': [proj_acc(a) for a in accs], 'leaves': U.leaf_ids(leaves, ctx), 'spec': U.project_spec(spec),
+             'paths': [proj_path(a.path) for a in accs], 'hits': hits}
+        if laws:
+            o['laws'] = accessor_laws(accs, obj, ctx, spec)
+        return o
 
     with U.modes(cfg['modes']):
         ep('tree_flatten', f_flatten)
@@ -128,6 +167,61 @@ def roundtrip(t, cfg, ctx, obj):
     return [case]
 
 
+def shuffled(t, rng):
+    """the same mapping(s), other insertion orders (dict / defaultdict only; OrderedDict order is significant)"""
+    kids = [shuffled(c, rng) for c in t['ch']]
+    t2 = dict(t, ch=kids)
+    if t['k'] in ('dict', 'ddict') and len(kids) > 1:
+        perm = list(range(len(kids)))
+        rng.shuffle(perm)
+        t2['ch'] = [kids[i] for i in perm]
+        t2['keys'] = [t['keys'][i] for i in perm]
+    return t2
+
+
+def c02_laws(t, cfg, ctx, obj):
+    """C02 consequences, observed on the real code: permutation invariance, None removal, predicate refinement, replace_nones"""
+    import random
+    kw = dict(namespace=cfg['ns'])
+    pred = U.make_pred(cfg, ctx)
+    case = {'op': 'c02laws', 't': t, 'cfg': cfg}
+
+    def fl(o, p, nil):
+        try:
+            leaves, spec = optree.tree_flatten(o, p, none_is_leaf=nil, **kw)
+            return {'err': '', 'leaves': U.leaf_ids(leaves, ctx), 'spec': U.project_spec(spec)}, leaves
+        except Exception as ex:  # noqa: BLE001
+            return {'err': U.exc_class(ex)}, []
+    with U.modes(cfg['modes']):
+        case['nilF'], _ = fl(obj, pred, False)
+        case['nilT'], _ = fl(obj, pred, True)
+        case['withpred'], lv = fl(obj, pred, cfg['nil'])
+        case['nopred'], _ = fl(obj, None, cfg['nil'])
+        parts = []
+        for x in lv:
+            r, _ = fl(x, None, cfg['nil'])
+            parts.append(r)
+        case['parts'] = parts
+        t2 = shuffled(t, random.Random(hash(json.dumps(t)) & 0xffff))
+        # same leaf objects, other insertion order: realise with the same context so that leaf ids map to the same objects
+        obj2 = U.realise(t2, ctx)   # same leaf objects; twin containers share the model id of their original
+        case['t2'] = t2
+        case['shuf'], _ = fl(obj2, pred, cfg['nil'])
+        sent = ctx.new_leaves(1)[0]
+        try:
+            rn = optree.tree_replace_nones(sent, obj, namespace=cfg["ns"])
+            case['replace_nones'] = {'err': '', 'tree': U.project(rn, ctx), 'sentinel': ctx.id_of(sent)}
+        except Exception as ex:  # noqa: BLE001
+            case['replace_nones'] = {'err': U.exc_class(ex)}
+    return [case]
+
+
+def strip_container_ids(t):
+    if t['k'] in ('leaf', 'sub'):
+        return t
+    return dict(t, id=-1, ch=[strip_container_ids(c) for c in t['ch']])
+
+
 def inspect_case(spec, cfg=None):
     """every inspection method of one treespec"""
     n = spec.num_children
@@ -169,7 +263,9 @@ def work(line):
             out.append({'op': 'selfcheck-failed', 't': t, 'back': back})
             continue
         if 'flatten' in fams:
-            out.append(flatten_family(t, cfg, ctx, obj))
+            out.append(flatten_family(t, cfg, ctx, obj, item.get('eps'), 'acclaws' in fams))
+        if 'c02laws' in fams:
+            out.extend(c02_laws(t, cfg, ctx, obj))
         if 'roundtrip' in fams:
             out.extend(roundtrip(t, cfg, ctx, obj))
         if 'inspect' in fams:
